@@ -205,15 +205,17 @@ func defaultAudFields(typ, ses, pid string, i int) audFields {
 }
 
 // audEventForOp renders a history op as an audit event (text level).
-func audEventForOp(i int, o hop) audEvent {
-	seq := 1000 + i
+func audEventForOp(opIndex int, o hop) audEvent {
+	seq := 1000 + opIndex
+	i := opIndex
+	ts := scramble(opIndex) // kernel timestamp index: unique, not monotonic in processing order
 	switch o.K {
 	case "open":
-		return buildAudEvent("LOGIN", i, seq, defaultAudFields("LOGIN", sesString(o.S), strconv.Itoa(pidValue(o.P)), i))
+		return buildAudEvent("LOGIN", ts, seq, defaultAudFields("LOGIN", sesString(o.S), strconv.Itoa(pidValue(o.P)), i))
 	case "disp":
-		return buildAudEvent("CRED_DISP", i, seq, defaultAudFields("CRED_DISP", sesString(o.S), opPidString(o), i))
+		return buildAudEvent("CRED_DISP", ts, seq, defaultAudFields("CRED_DISP", sesString(o.S), opPidString(o), i))
 	case "ev":
-		return buildAudEvent(o.T, i, seq, defaultAudFields(o.T, sesString(o.S), opPidString(o), i))
+		return buildAudEvent(o.T, ts, seq, defaultAudFields(o.T, sesString(o.S), opPidString(o), i))
 	default: // noise
 		typ := "USER_ACCT"
 		if i%2 == 0 {
@@ -238,6 +240,6 @@ func audEventForOp(i int, o hop) audEvent {
 		case "login_nosession":
 			typ, ses, pid = "LOGIN", "", strconv.Itoa(pidValue(o.P))
 		}
-		return buildAudEvent(typ, i, seq, defaultAudFields(typ, ses, pid, i))
+		return buildAudEvent(typ, ts, seq, defaultAudFields(typ, ses, pid, i))
 	}
 }
